@@ -1,6 +1,6 @@
 (* C14 - rendering is repeatable and leaves the table unchanged.
-   Only statements; proofs in Proofs/WrapProofs.v. *)
-From Tab Require Import Model.Wrap Proofs.WrapProofs.
+   Only statements; proofs in Proofs/WrapProofs.v and Proofs/WrapWorldProofs.v. *)
+From Tab Require Import Model.Wrap Proofs.WrapProofs Model.WrapWorld Proofs.WrapWorldProofs.
 
 (* Any sequence of wraps and renders (no building call) leaves everything a
    caller can observe - the view (counts, texts, column properties) and the
@@ -27,3 +27,51 @@ Proof.
   cbv zeta. split; [|vm_compute; reflexivity].
   intros o H. repeat (destruct H as [<-|H]; [reflexivity|]). destruct H.
 Qed.
+
+(* ---- Several tables in one programme (Model/WrapWorld.v): a history names
+   the table each operation acts on, and a render may be in progress
+   ([WDuring i k inner]: table i's pass is made, the operations of [inner] -
+   nested to any depth, on any table, table i included - run to completion,
+   and only then is the output emitted) while others happen.
+
+   As long as no building call reaches table i (anything may happen to the
+   other tables), everything a caller can observe of table i stays as it was. *)
+Theorem c14_world_preserves : forall (U : Type) out degraded (ops : list (wop U)) (w : list (tstate U)) i s,
+  nth_error w i = Some s -> forallb (no_build i) ops = true ->
+  exists s', nth_error (fst (wrun out degraded ops w)) i = Some s' /\ observable s' = observable s.
+Proof. exact world_preserves. Qed.
+Print Assumptions c14_world_preserves.
+
+(* ... and every render of table i in that history - plain, in progress
+   while others ran, or run while another was in progress - through a kind
+   whose wrapper was made beforehand is the format's output for the table's
+   view: it does not depend on the history at all. *)
+Theorem c14_world_render_is_out : forall (U : Type) out degraded (ops : list (wop U)) (w : list (tstate U)) i s k r,
+  nth_error w i = Some s -> forallb (no_build i) ops = true ->
+  (measuring k = true -> existsb (kind_eqb k) (st_cbs s) = true) ->
+  In (i, k, r) (snd (wrun out degraded ops w)) -> r = out k (st_view s).
+Proof. exact world_render_is_out. Qed.
+Print Assumptions c14_world_render_is_out.
+
+(* Hence the same bytes every time. *)
+Theorem c14_world_repeatable : forall (U : Type) out degraded (ops : list (wop U)) (w : list (tstate U)) i s k r1 r2,
+  nth_error w i = Some s -> forallb (no_build i) ops = true ->
+  (measuring k = true -> existsb (kind_eqb k) (st_cbs s) = true) ->
+  In (i, k, r1) (snd (wrun out degraded ops w)) -> In (i, k, r2) (snd (wrun out degraded ops w)) -> r1 = r2.
+Proof. exact world_repeatable. Qed.
+Print Assumptions c14_world_repeatable.
+
+(* not vacuous: two tables; table 1 is rebuilt and rendered while a text render
+   of table 0 is in progress, table 0 is rendered re-entrantly meanwhile; the
+   log has three renders of table 0 *)
+Example c14_world_example :
+  let out := fun (k : kind) (v : view) => Ok [N.of_nat (v_ncols v)] in
+  let degraded := fun (k : kind) (m : mstate) (v : view) => @Err (list N) in
+  let v0 := mkView 0 None [] [None] [None] in
+  let v1 := mkView 1 None [] [None; None] [None; None] in
+  let w : list (tstate unit) := [run (init v0 tt) [OWrap KText]; init v0 tt] in
+  let ops : list (wop unit) :=
+    [WDuring 0 KText [WOn 1 (OBuild v1 tt); WOn 1 (OWrap KMd); WDuring 1 KMd [WOn 0 (ORender KText)]]; WOn 0 (ORender KText)] in
+  forallb (no_build 0) ops = true /\
+  snd (wrun out degraded ops w) = [(0, KText, Ok [0%N]); (1, KMd, Ok [1%N]); (0, KText, Ok [0%N]); (0, KText, Ok [0%N])].
+Proof. cbv zeta. split; vm_compute; reflexivity. Qed.
